@@ -26,10 +26,14 @@ type Config struct {
 	// the outer channel (channel b) is buffered, filled and closed, the inner channels are buffered and
 	// pre-filled, every other one already closed, the rest closed later by a goroutine.  (On the virtual
 	// scheduler this is just one of the explored schedules: the producers run first; the field is ignored.)
-	Prefill bool     `json:"prefill,omitempty"`
-	N       int      `json:"n,omitempty"`    // do: number of functions
-	Errs    []int    `json:"errs,omitempty"` // do: 0 = nil error, otherwise the error's id
-	Pairs   [][2]int `json:"pairs,omitempty"`
+	Prefill bool `json:"prefill,omitempty"`
+	// joinsc: the slice handed to the emitted function, as indices into Items/Caps — the SAME channel may occur at
+	// several positions ([0 1 0]).  nil = every channel once, in order.  Duplicated channels are outside the LTS
+	// (which has one input per position): these runs are checked by the observable clauses only.
+	Slice []int    `json:"slice,omitempty"`
+	N     int      `json:"n,omitempty"`    // do: number of functions
+	Errs  []int    `json:"errs,omitempty"` // do: 0 = nil error, otherwise the error's id
+	Pairs [][2]int `json:"pairs,omitempty"`
 }
 
 // F is the user function of the fmap scenarios (the Lean driver uses the same one).
@@ -54,6 +58,13 @@ func FCh(v int) int {
 	}
 	return v
 }
+
+// Error codes of the do scenarios beyond the per-function ids 1..n: the cancellation family.
+const (
+	ErrCanceled        = 101 // context.Canceled itself
+	ErrWrappedCanceled = 102 // fmt.Errorf("…: %w", context.Canceled)
+	ErrDeadline        = 103 // context.DeadlineExceeded
+)
 
 // Item j of input i.
 func Item(i, j int) int { return (i+1)*100 + j }
@@ -163,6 +174,9 @@ func RandomConfig(sys string, r *rand.Rand, maxIn, maxItems, maxCap int) Config 
 		for i := range c.Errs {
 			if r.Intn(2) == 0 {
 				c.Errs[i] = 1 + i
+				if r.Intn(3) == 0 {
+					c.Errs[i] = ErrCanceled + r.Intn(3)
+				}
 			}
 		}
 		np := r.Intn(c.N + 1)
@@ -279,6 +293,18 @@ func DoConfigs(n int) []Config {
 					}
 				}
 				out = append(out, c)
+				if mask != 0 && len(p) <= 1 {
+					// the same failing subset with errors of the cancellation family only (context.Canceled, a wrapped
+					// one, context.DeadlineExceeded): still errors — Do must not return nil
+					cc := c
+					cc.Errs = make([]int, n)
+					for i := 0; i < n; i++ {
+						if mask&(1<<i) != 0 {
+							cc.Errs[i] = ErrCanceled + (i+mask)%3
+						}
+					}
+					out = append(out, cc)
+				}
 			}
 		}
 	}
@@ -362,4 +388,41 @@ func FmapChConfigs(items, maxCap int) []Config {
 		}
 	}
 	return out
+}
+
+// DupSliceConfigs: slice-of-channels Join whose slice holds one channel twice or three times.
+func DupSliceConfigs(items, maxCap int) []Config {
+	var out []Config
+	shapes := [][]int{{0, 0}, {0, 1, 0}, {0, 0, 1}, {1, 0, 0, 0}, {0, 1, 1, 0}}
+	for _, variant := range Variants["joinsc"] {
+		for _, sl := range shapes {
+			n := 0
+			for _, j := range sl {
+				if j+1 > n {
+					n = j + 1
+				}
+			}
+			for k := 0; k <= items; k++ {
+				for cp := 0; cp <= maxCap; cp++ {
+					counts, caps := make([]int, n), make([]int, n)
+					for i := range counts {
+						counts[i], caps[i] = k, cp
+					}
+					out = append(out, Config{Sys: "joinsc", Variant: variant, Caps: caps, Items: mkItems(counts), Slice: sl})
+				}
+			}
+		}
+	}
+	return out
+}
+
+// Duplicated reports whether input i occurs more than once in the slice of a joinsc configuration.
+func (c Config) Duplicated(i int) bool {
+	n := 0
+	for _, j := range c.Slice {
+		if j == i {
+			n++
+		}
+	}
+	return n > 1
 }
